@@ -113,6 +113,7 @@ func runCheck(id, tier string) (code int) {
 	// Engine R interprets the plugins as written; Engine G looks at the driver with calls to helpers that are not part of
 	// the baseline inlined (normalise.go). On the baseline tree both are the same object.
 	ctx.R = newSweeper(repo, tier)
+	r4Repo = repo
 	if os.Getenv("GDV_NO_INLINE") == "" {
 		g, notes := normaliseRepo(repo)
 		ctx.Repo = g
